@@ -734,6 +734,14 @@ func (c *ctx) confirm(r *runResult, processLevel bool) (string, error) {
 		writeJSON(tmp, rf)
 		// replay in a fresh process
 		rr, stderr, rerr := c.single("replay", tmp, nil)
+		if (rr == nil || rr.Violation == nil) && rf.Minimised != nil {
+			// the minimiser runs its candidates in ONE process; a tape it accepted may depend on
+			// state earlier candidates left in that process (a sync.Pool, a global): fall back
+			// to the full recorded tape, which is what the search run executed
+			rf.Minimised = nil
+			writeJSON(tmp, rf)
+			rr, stderr, rerr = c.single("replay", tmp, nil)
+		}
 		sameInvariant := rr != nil && rr.Violation != nil && rr.Violation.Property == r.Violation.Property && rr.Violation.Invariant == r.Violation.Invariant
 		if sameInvariant && rr.Violation.fingerprint() != fp {
 			// same invariant, different site label: the defect is schedule-dependent below the
